@@ -48,10 +48,24 @@ type miscGen struct {
 
 func (g *miscGen) hs() uint16 { return pickU16(g.tp, g.owned) }
 
+// personChannel draws from a small set of person channels so that admission,
+// deletion and re-admission of one channel meet inside short logs.
 func (g *miscGen) personChannel() string {
-	a := g.tp.Intn(len(simUIDs))
-	b := (a + 1 + g.tp.Intn(len(simUIDs)-1)) % len(simUIDs)
-	return channelid.EncodePersonChannel(simUIDs[a], simUIDs[b])
+	a := g.tp.Intn(2)
+	return channelid.EncodePersonChannel(simUIDs[a], simUIDs[a+1])
+}
+
+func simPersonChannels() []string {
+	return []string{channelid.EncodePersonChannel(simUIDs[0], simUIDs[1]), channelid.EncodePersonChannel(simUIDs[1], simUIDs[2])}
+}
+
+// channelForRow picks the channel of a channel-row command: mostly a group
+// channel, sometimes a person channel (type 1).
+func (g *miscGen) channelForRow() (string, int64) {
+	if g.tp.Intn(3) == 0 {
+		return g.personChannel(), 1
+	}
+	return pickStr(g.tp, simChannels), 2
 }
 
 func (g *miscGen) membership() metadb.UserChannelMembership {
@@ -105,7 +119,8 @@ func (g *miscGen) ordinary() miscCmd {
 		d := metadb.Device{UID: pickStr(tp, simUIDs), DeviceFlag: int64(tp.Intn(3)), Token: fmt.Sprintf("d%d", tp.Intn(3)), DeviceLevel: int64(tp.Intn(2))}
 		return miscCmd{hs: hs, data: fsm.EncodeUpsertDeviceCommand(d), desc: fmt.Sprintf("upsert-device %+v", d)}
 	case 3, 4:
-		c := metadb.Channel{ChannelID: pickStr(tp, simChannels), ChannelType: 2, Ban: int64(tp.Intn(2)), Disband: int64(tp.Intn(2)), SendBan: int64(tp.Intn(2)),
+		cid, ctyp := g.channelForRow()
+		c := metadb.Channel{ChannelID: cid, ChannelType: ctyp, Ban: int64(tp.Intn(2)), Disband: int64(tp.Intn(2)), SendBan: int64(tp.Intn(2)),
 			AllowStranger: int64(tp.Intn(2)), Large: int64(tp.Intn(2))}
 		if tp.Intn(2) == 0 {
 			return miscCmd{hs: hs, data: fsm.EncodeUpsertChannelCommand(c), desc: fmt.Sprintf("upsert-channel %s ban=%d", c.ChannelID, c.Ban)}
@@ -113,11 +128,11 @@ func (g *miscGen) ordinary() miscCmd {
 		return miscCmd{hs: hs, data: fsm.EncodeCreateChannelCommand(c), desc: fmt.Sprintf("create-channel %s ban=%d", c.ChannelID, c.Ban)}
 	case 5:
 		f := metadb.ChannelBusinessFlags{Ban: int64(tp.Intn(2)), Disband: int64(tp.Intn(2)), SendBan: int64(tp.Intn(2))}
-		id := pickStr(tp, simChannels)
-		return miscCmd{hs: hs, data: fsm.EncodePatchChannelBusinessFlagsCommand(id, 2, f), desc: fmt.Sprintf("patch-flags %s %+v", id, f)}
-	case 6:
-		id := pickStr(tp, simChannels)
-		return miscCmd{hs: hs, data: fsm.EncodeDeleteChannelCommand(id, 2), desc: "delete-channel " + id}
+		id, typ := g.channelForRow()
+		return miscCmd{hs: hs, data: fsm.EncodePatchChannelBusinessFlagsCommand(id, typ, f), desc: fmt.Sprintf("patch-flags %s %+v", id, f)}
+	case 6, 25:
+		id, typ := g.channelForRow()
+		return miscCmd{hs: hs, data: fsm.EncodeDeleteChannelCommand(id, typ), desc: "delete-channel " + id}
 	case 7, 8, 9:
 		id := pickStr(tp, simChannels)
 		n := 1 + tp.Intn(3)
@@ -253,8 +268,12 @@ func (g *miscGen) ordinary() miscCmd {
 		}
 		return miscCmd{hs: hs, data: fsm.EncodeNoopCommand(), desc: "noop"}
 	case 23:
-		id := pickStr(tp, simChannels)
-		return miscCmd{hs: hs, data: fsm.EncodeDeleteChannelRuntimeMetaCommand(id, 2), desc: "delete-runtime-meta " + id}
+		id, typ := g.channelForRow()
+		return miscCmd{hs: hs, data: fsm.EncodeDeleteChannelRuntimeMetaCommand(id, typ), desc: "delete-runtime-meta " + id}
+	case 24:
+		id, typ := g.channelForRow()
+		m := g.runtimeMeta(id, typ)
+		return miscCmd{hs: hs, data: fsm.EncodeUpsertChannelRuntimeMetaCommand(m), desc: fmt.Sprintf("upsert-runtime-meta %s %s", id, rtString(&m))}
 	default:
 		return miscCmd{hs: hs, data: fsm.EncodeNoopCommand(), desc: "noop"}
 	}
